@@ -10,6 +10,17 @@ HARNESS_FILES = {
     "turmoil-net/lib.rs": {"crate": "turmoil-net", "anchor": "crates/turmoil-net/src/lib.rs"},
     "turmoil-net/fabric.rs": {"crate": "turmoil-net", "anchor": "crates/turmoil-net/src/fabric.rs"},
     "turmoil-net/scheduler.rs": {"crate": "turmoil-net", "anchor": "crates/turmoil-net/src/fixture/scheduler.rs"},
+    "turmoil/host.rs": {"crate": "turmoil", "anchor": "crates/turmoil/src/host.rs"},
+    "turmoil/top.rs": {"crate": "turmoil", "anchor": "crates/turmoil/src/top.rs"},
+    "turmoil/ip.rs": {"crate": "turmoil", "anchor": "crates/turmoil/src/ip.rs"},
+    "turmoil/dns.rs": {"crate": "turmoil", "anchor": "crates/turmoil/src/dns.rs"},
+    "turmoil/udp.rs": {"crate": "turmoil", "anchor": "crates/turmoil/src/net/udp.rs"},
+    "turmoil/stream.rs": {"crate": "turmoil", "anchor": "crates/turmoil/src/net/tcp/stream.rs"},
+    "turmoil/barriers.rs": {"crate": "turmoil", "anchor": "crates/turmoil/src/barriers.rs", "features": "unstable-barriers"},
+    "turmoil-fs/lib.rs": {"crate": "turmoil-fs", "anchor": "crates/turmoil-fs/src/lib.rs"},
+    "turmoil-io-uring/sim.rs": {"crate": "turmoil-io-uring", "anchor": "crates/turmoil-io-uring/src/sim.rs", "features": "fs"},
 }
 
-PROPERTY_INFO = {}
+import os, sys
+sys.path.insert(0, os.path.dirname(__file__))
+from property_info import PROPERTY_INFO  # noqa: E402,F401
